@@ -6,6 +6,7 @@ import PwVerif.Model.Pool
 import PwVerif.Model.Lifecycle
 import PwVerif.Model.Stream
 import PwVerif.Model.Create
+import PwVerif.Model.Contexts
 import PwVerif.Gen.RunLoops
 /-!
 Line-protocol driver: `lake env lean --run PwVerif/Driver.lean < cases.txt`.
@@ -330,6 +331,17 @@ def step (line : String) : String :=
   | "pool" :: args => PoolIO.run args
   | "run" :: args => RunIO.run args
   | "c05" :: args => StreamIO.run args
+  | "c18" :: ops =>
+    let parse (t : String) : Option PwVerif.Contexts.Op :=
+      match t.toList with
+      | 'c' :: r => (String.ofList r).toNat?.map .create
+      | 'd' :: r => (String.ofList r).toNat?.map .delete
+      | 'w' :: r => (String.ofList r).toNat?.map .workerIn
+      | _ => none
+    match ops.mapM parse with
+    | none => "bad-op"
+    | some ops => ",".intercalate ((PwVerif.Contexts.run [] ops).2.map fun
+        | .ok => "ok" | .exists => "exists" | .refused => "refused")
   | "c02create" :: _ =>
     ",".intercalate ([false, true].flatMap fun p => [PwVerif.Create.WType.thread, .process, .remote].map fun t => PwVerif.Create.className t p)
   | "c13choice" :: args => c13choice args
